@@ -741,7 +741,10 @@ func (s *Server) handleDecline(msg *Message, addr *net.UDPAddr) {
 	// handed out again: it is taken out of the legacy pool instead of being
 	// returned to it. (The integrated allocator has no quarantine; there the
 	// address is released as before.)
-	if s.addressAllocator == nil && s.addressPool != nil {
+	// Only an address the message names is declined (RFC 8415 18.3.8): a
+	// Decline whose IA_NA options do not carry the client's address must not
+	// take that address out of service.
+	if s.addressAllocator == nil && s.addressPool != nil && s.declineNamesHeldAddress(msg, clientDUID) {
 		s.leasesMu.Lock()
 		if lease, ok := s.leases[clientDUID]; ok {
 			lease.Address = nil
@@ -753,6 +756,32 @@ func (s *Server) handleDecline(msg *Message, addr *net.UDPAddr) {
 
 	// Everything else the client holds is released as before
 	s.handleRelease(msg, addr)
+}
+
+// declineNamesHeldAddress reports whether one of the IA_NA options of msg
+// carries the address the legacy pool holds for the client.
+func (s *Server) declineNamesHeldAddress(msg *Message, clientDUID string) bool {
+	s.addressPool.mu.Lock()
+	held := s.addressPool.allocated[clientDUID]
+	s.addressPool.mu.Unlock()
+	if held == nil {
+		return false
+	}
+	for _, ianaOpt := range msg.GetAllOptions(OptIANA) {
+		iana, err := ParseIANA(ianaOpt.Data)
+		if err != nil {
+			continue
+		}
+		for _, iaAddrOpt := range iana.Options {
+			if iaAddrOpt.Code != OptIAAddr {
+				continue
+			}
+			if iaAddr, err := ParseIAAddress(iaAddrOpt.Data); err == nil && iaAddr.Address.Equal(held) {
+				return true
+			}
+		}
+	}
+	return false
 }
 
 // handleInformationRequest handles an Information-Request message
